@@ -74,6 +74,9 @@ Definition index_pos (c : N) (ctl : bytes) : option nat :=
   | _ => None
   end.
 
+Definition is_comment (ctl : bytes) : bool :=
+  match ctl with c0 :: _ => N.eqb c0 c_hash || has_prefix (bs "//") ctl | [] => false end.
+
 (* nextCtl: the control line starting at the first non-layout byte *)
 Definition next_ctl (body : bytes) (off : nat) : option (bytes * nat) :=
   match skip_fmt (skipn off body) off with
@@ -85,6 +88,8 @@ Definition next_ctl (body : bytes) (off : nat) : option (bytes * nat) :=
       | None => Some (rest, o)
       | Some i =>
           let ctl := firstn i rest in
+          (* a whole-line comment is opaque: the line is returned as it is *)
+          if is_comment ctl then Some (ctl, o) else
           match index_pos c_lbrace ctl with
           | Some j =>
               if negb (N.eqb (nth (j - 1) ctl 0%N) c_dot) then Some (firstn (S j) rest, o)
